@@ -115,7 +115,8 @@ func synPos(raw json.RawMessage, _ []string) (any, error) {
 			}
 			l, c := lineCol(src, off)
 			if int(pos.Line()) != l || int(pos.Col()) != c {
-				fail("line-col", kind+"."+field, fmt.Sprintf("offset %d is %d:%d, position says %d:%d", off, l, c, pos.Line(), pos.Col()))
+				// keyed by what precedes the position, not by the node: see posClass
+				fail("line-col", posClass(src, off), fmt.Sprintf("%s.%s: offset %d is %d:%d, position says %d:%d", kind, field, off, l, c, pos.Line(), pos.Col()))
 			}
 			return true
 		}
